@@ -1010,6 +1010,77 @@ async fn scripted(name: &str, case: usize, summary: &mut Summary) -> (Sim, Strin
                 k += 1;
             }
         }
+
+        // an NFT whose Normal slip carries no deposit (amount 0): its only slip with an amount is the Bound
+        // marker (1). A block carrying two transfers of that NFT to two different holders names the marker
+        // twice: must be rejected (2a74b4d: Bound slips take part in the duplicate-input sweep)
+        "nft-double-transfer" => {
+            sim = scripted_prefix_raw(3, 8, ISS, 1, 7, case, summary, &desc).await;
+            if sim.dead {
+                return (sim, desc);
+            }
+            let ts = sim.tip().timestamp + 2 * HEARTBEAT + 1000;
+            let s = sim.spendable().into_iter().find(|s| s.public_key == sim.keys[1].0 && s.amount == 333_000).unwrap();
+            let tx = nft_create(&sim, &s, 0, 333_000 - 10, ts);
+            let parent = sim.tip().clone();
+            let gt = gt_tx_for(&sim.node, &parent, sim.keys[1].0, 13).await;
+            let (_co, sr) = sim.honest_step(ts, Some(gt), &[tx]).await;
+            must_accept(&sr, "a block with an NFT-creating transaction without deposit", case, summary, &desc);
+            let mut alive = c02_oracle(&mut sim, &sr, case, summary, &desc, None) && sr.add == Some(AddClass::OnChain);
+            if alive {
+                let nft_block = sim.tip().clone();
+                let t = nft_block.transactions.iter().find(|t| t.transaction_type == TransactionType::Bound).unwrap().clone();
+                let (b1, pl, b2) = (t.to[0].clone(), t.to[1].clone(), t.to[2].clone());
+                let ts2 = sim.tip().timestamp + 2 * HEARTBEAT + 1000;
+                let send_to = |holder: usize, ts: u64| {
+                    raw_tx(
+                        TransactionType::Bound,
+                        vec![b1.clone(), pl.clone(), b2.clone()],
+                        vec![slip_out(b1.public_key, b1.amount, SlipType::Bound), slip_out(sim.keys[holder].0, 0, SlipType::Normal), slip_out(b2.public_key, b2.amount, SlipType::Bound)],
+                        &sim.keys[1].1,
+                        ts,
+                    )
+                };
+                let (s1, s2) = (send_to(2, ts2), send_to(3, ts2 + 1));
+                let mut sp: Vec<_> = sim.spendable().into_iter().filter(|s| s.public_key == sim.keys[0].0).collect();
+                sp.sort_by_key(|s| s.amount);
+                let big = sp.last().unwrap().clone();
+                let pay = make_tx(&[big.clone()], &[(sim.keys[0].0, big.amount - 50_000)], &sim.keys[0].1, ts2);
+                // the real producer refuses the conflicting pair; a peer assembles the block by hand: the honest
+                // block with the first transfer, the second one inserted, header refilled by the real
+                // generate_consensus_values, re-sealed
+                let created = create_block(&sim.node, sim.tip().hash, ts2, &[pay.clone(), s1.clone()], None).await;
+                let sr2 = match created {
+                    Ok(Ok(created)) => {
+                        let mut edited = created.clone();
+                        let mut s2g = s2.clone();
+                        s2g.generate(&sim.node.pk, 0, 0);
+                        let at = edited.transactions.iter().position(|t| t.transaction_type == TransactionType::Bound).map(|p| p + 1).unwrap_or(1);
+                        edited.transactions.insert(at, s2g);
+                        refill_header(&sim.node, &mut edited).await;
+                        reseal(&mut edited, &sim.keys[0].1);
+                        let carried = edited.transactions.iter().filter(|t| t.transaction_type == TransactionType::Bound && t.from.len() == 3).count();
+                        let sr2 = sim.step(ts2, None, &[pay, s1], CreateOutcome::Ok, Some(created), Some(edited)).await;
+                        summary.count("scripted", &format!("{}:{:?}:transfers-carried-{}", name, sr2.add.clone().map(|c| c.code()), carried));
+                        if carried != 2 {
+                            summary.oracle_failure(case, "coverage: the hand-assembled block does not carry both transfers", &desc);
+                        }
+                        must_reject(&sr2, "a block carrying two transfers of the same NFT (Bound marker 1, no deposit) to two holders", case, summary, &desc);
+                        sr2
+                    }
+                    other => {
+                        summary.oracle_failure(case, &format!("Block::create failed on valid input: {:?}", other.map(|r| r.map(|b| b.id))), &desc);
+                        StepResult { add: None, panic_msg: None }
+                    }
+                };
+                alive = c02_oracle(&mut sim, &sr2, case, summary, &desc, None);
+            }
+            let mut k = 0;
+            while alive && k < 2 {
+                alive = scripted_more(&mut sim, k).await.map(|sr| c02_oracle(&mut sim, &sr, case, summary, &desc, None)).unwrap_or(false);
+                k += 1;
+            }
+        }
         _ => unreachable!(),
     }
     summary.count("scripted", name);
@@ -1078,6 +1149,7 @@ async fn main() {
         "minting-transactions",
         "spend-dust-in-collecting-block",
         "nft-send",
+        "nft-double-transfer",
     ] {
         let case = cases.len();
         let r = verif_harness::chainsim::futures_catch(std::panic::AssertUnwindSafe(scripted(name, case, &mut summary))).await;
@@ -1131,6 +1203,57 @@ async fn main() {
         let (sim, desc) = failed_reorg_history(&mut hrng, gp, case, &mut summary).await;
         coq_cases.push(sim.history_literal());
         cases.push(Case { desc, nontrivial_key: format!("fork:failed:gp{}", gp) });
+    }
+
+    // forks across the window edge continued until the fork height has left the window (shared with C13):
+    // the node that saw the losing block first must rebroadcast the outputs of the WINNING block, supply checked
+    let n_fork_atr = if thorough { 12 } else { 4 };
+    for h in 0..n_fork_atr {
+        let case = cases.len();
+        let mut hrng = rng.fork();
+        let gp = [3u64, 4, 5, 8][h % 4];
+        let r = verif_harness::chainsim::futures_catch(std::panic::AssertUnwindSafe(fork_history_atr(&mut hrng, gp, case))).await;
+        let (lit, desc) = match r {
+            Ok((sim, desc, fails, delivery)) => {
+                for f in &fails {
+                    summary.oracle_failure(case, f, &desc);
+                }
+                summary.count("fork_past_window_delivery", &delivery);
+                (sim.history_literal(), desc)
+            }
+            Err(msg) => {
+                let desc = format!("{{\"case\":{},\"kind\":\"fork\",\"genesis_period\":{}}}", case, gp);
+                summary.oracle_failure(case, &format!("fork history panicked: {}", msg), &desc);
+                (Sim::new(3, 8, 2, &[(0, 1000)], 1).await.history_literal(), desc)
+            }
+        };
+        coq_cases.push(lit);
+        cases.push(Case { desc, nontrivial_key: format!("fork:past-window:gp{}", gp) });
+    }
+
+    // refused reorganisation at the block in slot 0 of the block ring (first block of the new branch mints)
+    let n_slot0 = if thorough { 9 } else { 3 };
+    for h in 0..n_slot0 {
+        let case = cases.len();
+        let mut hrng = rng.fork();
+        let gp = [3u64, 5, 4][h % 3];
+        let r = verif_harness::chainsim::futures_catch(std::panic::AssertUnwindSafe(slot0_reorg_history(&mut hrng, gp, case))).await;
+        let (lit, desc) = match r {
+            Ok((sim, desc, fails, outcome)) => {
+                for f in &fails {
+                    summary.oracle_failure(case, f, &desc);
+                }
+                summary.count("slot0_reorg_delivery", &outcome);
+                (sim.history_literal(), desc)
+            }
+            Err(msg) => {
+                let desc = format!("{{\"case\":{},\"kind\":\"reorg-at-ring-slot-0\",\"genesis_period\":{}}}", case, gp);
+                summary.oracle_failure(case, &format!("history panicked: {}", msg), &desc);
+                (Sim::new(3, 8, 2, &[(0, 1000)], 1).await.history_literal(), desc)
+            }
+        };
+        coq_cases.push(lit);
+        cases.push(Case { desc, nontrivial_key: format!("fork:slot0:gp{}", gp) });
     }
 
     // non-trivial: scripted adversarial cases and random histories whose window wrapped at least once
